@@ -44,6 +44,10 @@ def build(tier):
                 prefix = [dict(others[(bi + vi) % len(others)], id=f"prefix{bi}{vi}")]
             elif vi % 3 == 2:
                 prefix = [dict(others[(bi + vi) % len(others)], id=f"prefix{bi}{vi}a"), dict(v, id=v["id"] + "/first")]
+            elif vi == 3:
+                # earlier calls on SAME-SHAPE data with other values / the other estimator (state keyed on shapes or
+                # on membership only would leak between them)
+                prefix = [dict(v, id=f"prefix{bi}{vi}s", scale=4.0), dict(v, id=f"prefix{bi}{vi}b", biased=not v["biased"])]
             histories.append(prefix + [v])
     res = common.pmap(history, histories)
     return {"bases": [b["id"] for b in bases], "histories": res}
